@@ -596,6 +596,15 @@ def rule_alg(ctx, F):
                 root_seen = True
             if v is True and re.search(r"::(name_eq|eq)\(", s) and "arg1" in s and "iter_labels" not in s:
                 whole = True
+        if n == 1:
+            import sigs
+            names = {(tt["fn"] or "") for _, _, tt in sigs.callees_deep(F, b, depth=2)}
+            fold = any(re.search(r"(eq_ignore_ascii_case|to_ascii_lowercase|make_ascii_lowercase|to_canonical|"
+                                 r"label::Label as core::cmp::PartialEq|ToName::name_eq|composed_cmp|lowercase)", x) for x in names)
+            ctx.ob(R, b, "the algorithm name is matched without regard to case", fold,
+                   "Algorithm::from_name compares the label's octets with lower-case constants: a peer that writes the "
+                   "algorithm name as `HMAC-SHA256.` (domain names are case-insensitive, the digest uses the canonical form) "
+                   "is refused with BADKEY", b.where(bi))
         ctx.ob(R, b, "Some#%d only for a one-label name" % n, root_seen or whole,
                "Algorithm::from_name answers Some(..) without having seen the root label right behind the first label: "
                "`hmac-sha256.anything.` is taken for HMAC-SHA256, so a request whose algorithm name was altered still "
